@@ -88,6 +88,7 @@ def universe() -> List[Tuple[str, V]]:
         ("own class nested three levels deep", C(MOD, "Outer.Inner.Core")),
         ("Tuple[Tuple[TypedDict a, TypedDict b], Tuple[TypedDict c, TypedDict d]]",
          gen("Tuple", gen("Tuple", anon_td({"a": INT}), anon_td({"b": STR})), gen("Tuple", anon_td({"c": INT}), anon_td({"d": NONE_T})))),
+        ("classes of a package and of its sub-package", gen("Tuple", C("pkg", "mod"), Th)),
         # user classes that merely share their name with a typing alias
         ("class of another module named List", C("pkg.other", "List")), ("own class named Set", C(MOD, "Set")),
         ("Dict[str, class named Union]", gen("Dict", STR, C("pkg.other", "Union"))),
